@@ -336,7 +336,7 @@ void harness(void) {
     /* C08: the specification stream cut at EVERY length k < slen (exact-size object: any read behind the cut is a bounds violation);
        the decoder may report an error or values, it must not read outside and must not claim to have consumed more than it was given */
     {
-        uint16_t k; symx_make_symbolic(&k, 2, "cut"); symx_assume(k < slen);
+        uint16_t k; symx_make_symbolic(&k, 2, "cut"); symx_assume(k <= slen);      /* k == slen: the complete stream in an exact-size object */
         uint8_t* cin = exact(st, k);
         val_t* cout = malloc(VCNT ? sizeof(val_t) * VCNT : 1); symx_assume(cout != NULL);
         size_t ccons = 0;
